@@ -79,6 +79,7 @@ int main(void)
     char line[256], extra;
     long a;
     int i;
+    setvbuf(stdout, NULL, _IOLBF, 0);
     memset(queues, 0, sizeof queues);
     for (i = 0; i < NU; i++) {
         memset(&units[i], 0, sizeof units[i]);
